@@ -154,7 +154,7 @@ def _judge1(case, fi, fm):
     if not (finding or sv[0]) and fi.get('twoh', '0') != '0':
         # every view agrees with the overlay when a path is read by ONE reader; two handles of one path open at once do not
         return ('two handles of one path open at the same time share one read offset: the second reader of a file (of 2 bytes or more) does not get '
-                'its whole content (FS.Open returns the shared node with its cached *os.File)'), OPEN_KEY
+                'its whole content'), None
     return finding or sv
 
 
